@@ -26,7 +26,7 @@ REACH_PROBES = ['C_one_transformer_many_texts', 'A_literal', 'A_file', 'A_progra
                 'A_partial_lines', 'A_text_longer_than_buffer', 'A_text_fits_buffer',
                 'A_multibyte', 'A_cr', 'A_unicode_line_separators', 'A_no_final_newline', 'A_empty_text',
                 'A_family_line_based', 'A_family_cached', 'A_run_transformer', 'A_write_to_spooled', 'A_as_file',
-                'A_default_buffer', 'B_family', 'B_expected_differs_in_one_character_same_size', 'B_operand_after_transformation', 'B_transformed_operand_is_empty', 'B_equals_file_vs_file', 'B_equals_program', 'B_line_end_variant',
+                'A_default_buffer', 'A_text_longer_than_64k', 'B_family', 'B_texts_differ_by_one_long_last_line', 'B_expected_differs_in_one_character_same_size', 'B_operand_after_transformation', 'B_transformed_operand_is_empty', 'B_equals_file_vs_file', 'B_equals_program', 'B_line_end_variant',
                 'B_multibyte', 'spooled_rollover']
 
 SAFE = ['a', 'b', ' ', '\n', '\n', '.', '\t', 'c']
@@ -194,6 +194,10 @@ def plan_a(seed, tier, g):
     if kind == 'lit':
         classes = [c for c in classes if c != 'cr']  # a literal can never contain CR: case files are read in text mode
     T = gen_text(g, knob, classes)
+    if g.random() < 0.012:
+        # a text longer than any read-ahead or chunk size one might think of (2**16 characters and some)
+        unit = gen_text(g, 64, classes) or 'line\n'
+        T = (unit * (70000 // len(unit) + 1))[:g.choice([65536, 65537, 70000])] + g.choice(['', '\n', 'tail'])
     chain = [g.choice(sorted(TRANSFORMERS)) for _ in range(g.choice([0, 0, 1, 1, 2, 3]))]
     nops = g.randint(2, 10)
     ops = []
@@ -237,7 +241,15 @@ def plan_b(seed, tier, g):
         r = g.random()
         T_ = X if pre else T
         same_size = [k for k, ch in enumerate(T_) if ch in SAFE and ch not in '\n\r']
-        if r < 0.5:
+        long_line = 'L' * g.choice([101, 102, 151, 400]) + g.choice(['\n', ''])
+        if r < 0.08 and not pre:
+            # the actual text is the expected one followed by one long line (longer than any look-ahead)
+            other = T
+            T = T + ('' if (T.endswith('\n') or not T) else '\n') + long_line
+        elif r < 0.16:
+            # ... and the other way round
+            other = T_ + ('' if (T_.endswith('\n') or not T_) else '\n') + long_line
+        elif r < 0.5:
             other = T_
         elif r < 0.62 and same_size:
             # a text of the same size (in bytes) that differs in one character
@@ -472,6 +484,8 @@ def _probes_a(plan, hist):
         pr['A_as_file'] = 1
     if knob == 8192:
         pr['A_default_buffer'] = 1
+    if len(plan['T']) >= 65536:
+        pr['A_text_longer_than_64k'] = 1
     if hist['info']['rollovers']:
         pr['spooled_rollover'] = 1
     hist['probes'] = pr
@@ -568,6 +582,8 @@ def execute_b(plan, scratch):
     if 'other' in m and m['other'] != T and len(m['other'].encode('utf-8', 'surrogateescape')) == len(
             _apply_chain(pre, translate(T)).encode('utf-8', 'surrogateescape')):
         pr['B_expected_differs_in_one_character_same_size'] = 1
+    if 'other' in m and ('L' * 101 in m['other']) != ('L' * 101 in T):
+        pr['B_texts_differ_by_one_long_last_line'] = 1
     if pre:
         pr['B_operand_after_transformation'] = 1
         if _apply_chain(pre, translate(T)) == '':
